@@ -153,6 +153,9 @@ func (w *World) begin(kind, path string, off int64, n int) *Fault {
 	if p.Crashed {
 		panic(CrashSentinel{"dead"})
 	}
+	if w.Sched != nil {
+		w.Sched(p)
+	}
 	idx := p.Ops
 	p.Ops++
 	w.Stats.Ops++
